@@ -125,6 +125,11 @@ def c18_extras(seed, tier):
     out.append(('NOSYM-2D-one-atom', lambda: C(np.eye(2), [[np.zeros(2)]], NOSYM=True)))
     out.append(('NOSYM-3D', lambda: C(np.eye(3), [[np.zeros(3), np.array([0.3, 0.1, 0.2])]], NOSYM=True)))
     out.append(('square2D-two-species', lambda: C(np.eye(2), [[np.zeros(2)], [np.array([.5, .5])]])))
+    # descriptions kept as given (noreduce=True) whose cell vectors are not the shortest ones: the symmetry search must still return a group
+    out.append(('noreduce-sheared-cubic', lambda: C(np.array([[1., 1, 0], [0, 1, 0], [0, 0, 1]]).T, [[np.zeros(3)]], noreduce=True)))
+    out.append(('noreduce-sheared-square-2D', lambda: C(np.array([[1., 1], [0, 1]]).T, [[np.zeros(2)]], noreduce=True)))
+    out.append(('noreduce-sheared-tetragonal-two-atoms', lambda: C(np.array([[1., 0, 0], [1, 1, 0], [0, 0, 1.4]]).T, [[np.zeros(3), np.array([.5, .5, .5])]], noreduce=True)))
+    out.append(('noreduce-doubly-sheared-cubic', lambda: C(np.array([[1., 2, 0], [0, 1, 0], [0, 1, 1]]).T, [[np.zeros(3)]], noreduce=True)))
     rng = np.random.default_rng(seed + 5)
     for k in range(2 if tier == 'quick' else 8):
         base = [C.FCC(1.), C.HCP(1.), C(np.eye(2), [[np.zeros(2)]]), C(np.eye(3), [[np.zeros(3)], [.5 * np.ones(3)]])][k % 4]
@@ -463,7 +468,8 @@ def kpt_lattices(tier, seed):
     out += [('noreduce:acute-oblique-2D', np.array([[1., 1.7], [0., 0.6]])),
             ('noreduce:hexagonal-a2+2a1', np.array([[0.5, 1.5, 0], [-s3, -s3, 0], [0, 0, 1.6]])),
             ('noreduce:monoclinic-inclined-c', np.array([[1., 0, 2.3], [0, 1.1, 0], [0, 0, 0.9]])),
-            ('noreduce:sheared-cubic', np.array([[1., 2., 0], [0, 1., 0], [0, 0, 1.]]))]
+            ('noreduce:sheared-cubic', np.array([[1., 2., 0], [0, 1., 0], [0, 0, 1.]])),
+            ('noreduce:singly-sheared-cubic', np.array([[1., 1., 0], [0, 1., 0], [0, 0, 1.]]))]
     # realistic lattice constants (the zone construction must not depend on the length unit)
     out += [('fcc-a=3.6', 3.6 * np.array([[0, .5, .5], [.5, 0, .5], [.5, .5, 0]])), ('bcc-a=2.9', 2.9 * np.array([[-.5, .5, .5], [.5, -.5, .5], [.5, .5, -.5]])),
             ('hex-a=3.2', 3.2 * np.array([[0.5, 0.5, 0], [-s3, s3, 0], [0, 0, 1.6]])), ('triclinic-a=5', 5. * np.array([[1.424, -0.426, 0.514], [0.077, 0.949, -0.116], [-0.147, -0.411, 1.157]])),
